@@ -250,10 +250,19 @@ fn coll_real(c: &CollCase, rng: &mut SplitMix) -> CollReal {
         (Leaf::Probe(d), None, _) => {
             let p = Probe::new(*d);
             let v: Vec<i64> = if mutated { mutant_collect(&mt, &p, c.n, rng) } else {
-                match c.variant % 3 {
+                match c.variant % 4 {
                     0 => p.to_collection_generator(c.n).sample(rng),
                     1 => rng.sample(p.to_collection_generator(c.n)),
-                    _ => ec_core::distributions::collection::Generator::new(&p, c.n).sample(rng),
+                    2 => ec_core::distributions::collection::Generator::new(&p, c.n).sample(rng),
+                    _ => {
+                        // one Generator value used, resized through its public field, and used again
+                        let mut gen = ec_core::distributions::collection::Generator::new(&p, (c.n + 3) % 7);
+                        let mut scratch = SplitMix::derive(0xFEED, c.n as u64);
+                        let _: Vec<i64> = gen.sample(&mut scratch);
+                        p.log.borrow_mut().clear();
+                        gen.size = c.n;
+                        gen.sample(rng)
+                    }
                 }
             };
             pop_size = Some(Population::size(&v));
@@ -290,8 +299,13 @@ fn coll_real(c: &CollCase, rng: &mut SplitMix) -> CollReal {
                 }
                 1 => {
                     let d: ChooseCloning<'_, PushInstruction> = ToDistribution::<PushInstruction>::to_distribution(&set).expect("non-empty");
-                    let gg = if *uniform_close { d.into_gene_generator() } else { GeneGenerator::new(cpf, d) };
-                    if mutated { Plushy::new(mutant_collect::<PushGene, _, _>(&mt, &gg, c.n, rng)) } else { gg.to_collection_generator(c.n).sample(rng) }
+                    if *uniform_close && c.variant % 2 == 1 && !mutated {
+                        // the borrowing default: `to_gene_generator()` = uniform close probability 1/(n+1)
+                        d.to_gene_generator().to_collection_generator(c.n).sample(rng)
+                    } else {
+                        let gg = if *uniform_close { d.into_gene_generator() } else { GeneGenerator::new(cpf, d) };
+                        if mutated { Plushy::new(mutant_collect::<PushGene, _, _>(&mt, &gg, c.n, rng)) } else { gg.to_collection_generator(c.n).sample(rng) }
+                    }
                 }
                 _ => {
                     let gg = InstrProbe.to_gene_generator_with_close_probability(cpf);
